@@ -295,6 +295,15 @@ class C14(core.Property):
         "KVStore dict (kv_laws), for every B-tree of order ≥ 3 satisfying the search-tree invariant (bt_laws, btOk_built) and for every LSM tree "
         "without WAL and with ≥ 2 levels built by put_sync from the empty tree (lsm_laws, lsmOk_built: put_sync is the segments of put run "
         "back to back on a quiescent tree)",
+        "DistinctS / KeysBelow (store_read_regular, btree_read_regular, kv_read_regular, final_reads_regular): operation ids and put values "
+        "pairwise distinct, written keys < nkeys (used only for the upper bound of the size clause); the store starts as an empty B-tree of "
+        "order ≥ 3 or an empty KVStore. NO hypothesis on the schedule",
+        "WFProg (txn_trace_satisfies_spec*): operation ids distinct; per slot the begin comes first and once, nothing follows its commit/abort",
+        "SlotSeq (txn_trace_satisfies_spec*; decidable companion slotSeqB, slotSeq_of_B): whenever a segment of an operation is executed, the "
+        "operations of the same slot declared before it are done — one client per transaction; operations of different transactions "
+        "interleave arbitrarily",
+        "Quiesced (txn_trace_satisfies_spec*): every operation that started has completed when the schedule ends (a run that stops between "
+        "the two segments of a successful commit has applied writes that the transcript does not report as committed)",
     ]
     partial_theorems = {
         "read_regular (hypotheses, not gaps)": "read_regular / deleted_stay_deleted / scan_sorted_live are proved for the model over every schedule of "
@@ -305,15 +314,23 @@ class C14(core.Property):
                                "CompactPre, and compactPre_run proves CompactPre for every suspended compaction of every run (SSTables sorted, levels >= 1 "
                                "key-disjoint, one compaction in flight, tombstones dropped only at the deepest level). Not covered by a theorem: that the "
                                "implementation runs the model's segments (checked by comparison on every case).",
-        "btree_refines_map / serializable_commit_order over interleavings": "proved for every sequence of atomic actions (B-tree puts/deletes; "
-                               "transaction begin/readStart/readFetch/write/commit/abort in any order). Not proved: that the *observations* of the segment "
-                               "machines (stepS / stepT under an arbitrary schedule, with first/last segment indices) satisfy judgeStore / judgeTxn; the link "
-                               "is that each operation acts on the store in exactly one segment (stepS, doAct) and SM.stepT_state / SM.readAdvance_fetch. "
-                               "For the LSM store the transactional read fetches through the multi-segment get generator: the theorems cover a fetch that is "
-                               "atomic (lsm_get_first_segment: a get finishing in its first segment returns get_sync; lsm_get_quiescent: so does a get of any "
-                               "number of segments during which no commit touches the tree); a get suspended at a page read while "
-                               "another transaction commits is covered by the LSM family's read_regular and, for the transaction clauses, by the judge only. "
-                               "The clause is checked on the implementation by the Lean Spec judge on every case.",
+        "btree_read_regular / txn_trace_satisfies_spec (run level; hypotheses and remaining gaps)": "PROVED at run level, unbounded: "
+                               "(a) SM.SR.store_read_regular / btree_read_regular / kv_read_regular — for every workload (DistinctS, KeysBelow), an empty "
+                               "B-tree of any order >= 3 or an empty KVStore and EVERY schedule of generator segments, judgeStore (reads, scans, delete flags, "
+                               "sizes) of the observations of stepS under runFrames is none; final_reads_regular covers the get_sync/size observations the "
+                               "harness appends; store_refines_log: get_sync after any run is the newest ghost-log write per key and the tree invariant holds. "
+                               "(b) SM.txn_trace_satisfies_spec (_kv, _btree, _gen) — for every program (WFProg), initial contents, KVStore or B-tree of order "
+                               ">= 3 and every schedule with SlotSeq and Quiesced, judgeTxn (own writes, final store = committed writes in commit order, "
+                               "serializable reads, snapshot reads; READ_COMMITTED as the judge has it: own-write and final-store clauses only) of the "
+                               "observation tobsOf of stepT under runFrames is none; reads suspended in the store's get while other transactions commit (and, "
+                               "for the B-tree, split nodes) are covered. The proof goes machine facts (machFacts_run: timed ghost log + Inv/Inv2 along the "
+                               "run) -> observation facts (txnFacts_of_run) -> judge (judgeTxn_of_facts: the commit order itself is the serial witness). "
+                               "NOT proved: (1) LSM-backed transactions whose get is suspended at a page read while another transaction commits (the atomic "
+                               "theorems cover lsm_get_first_segment / lsm_get_quiescent; the clause is checked by the judge on every case); (2) obsOfS / "
+                               "extraOfS / tobsOf are proof-side mirrors of DriverStore.judgeStoreMode / judgeTxnMode without the text layer (parsing of the "
+                               "transcript lines is executable glue, as obsOf is for the LSM family); (3) runs that are not Quiesced and schedules that "
+                               "interleave the operations of one transaction are outside the transaction theorem (the harness runs one client per slot and "
+                               "drains the simulation); (4) that the implementation runs the model's segments (checked by comparison on every case).",
     }
 
     def generate(self, rng: random.Random, i: int, tier: str) -> dict:
@@ -491,6 +508,23 @@ THEOREMS = [
     "HappyModel.C14.read_regular_sem",
     "HappyModel.C14.judge_of_facts",
     "HappyModel.C14.read_regular",
+    "HappyModel.C14.SM.sok_laws",
+    "HappyModel.C14.SM.SR.rinv_step",
+    "HappyModel.C14.SM.SR.store_refines_log",
+    "HappyModel.C14.SM.SR.store_read_regular",
+    "HappyModel.C14.SM.SR.btree_read_regular",
+    "HappyModel.C14.SM.SR.kv_read_regular",
+    "HappyModel.C14.SM.SR.final_reads_regular",
+    "HappyModel.C14.SM.judgeTxn_of_facts",
+    "HappyModel.C14.SM.txnFacts_of_mach",
+    "HappyModel.C14.SM.txnFacts_of_run",
+    "HappyModel.C14.SM.machFacts_run",
+    "HappyModel.C14.SM.slotSeq_of_B",
+    "HappyModel.C14.SM.txn_trace_of_mach",
+    "HappyModel.C14.SM.txn_trace_satisfies_spec_gen",
+    "HappyModel.C14.SM.txn_trace_satisfies_spec",
+    "HappyModel.C14.SM.txn_trace_satisfies_spec_kv",
+    "HappyModel.C14.SM.txn_trace_satisfies_spec_btree",
 ]
 C14.theorems = THEOREMS
 PROPERTY = C14()
